@@ -64,7 +64,14 @@ impl Extractor {
                 let name = utils::hash_to_string(&self.metainfo.piece(end.file_index)) + ".piece";
                 let reader = &mut BufReader::new(File::open(name)?);
 
-                let mut buffer = vec![0; end.byte_index];
+                // A file that also starts in this piece begins at its own offset, not at 0
+                let begin = match start.file_index == end.file_index {
+                    true => start.byte_index,
+                    false => 0,
+                };
+                reader.seek(std::io::SeekFrom::Start(begin as u64))?;
+
+                let mut buffer = vec![0; end.byte_index - begin];
                 reader.read_exact(buffer.as_mut_slice())?;
                 writer.write_all(buffer.as_slice())?;
             }
